@@ -100,28 +100,36 @@ function printFull(e) {
  * member reads null-safe, calls as plain functions (non-function callee -> undefined).
  * These are exactly the three deviations from plain JavaScript the property names.
  */
-function printRef(e) {
+function printRef(e, sites) {
+  const R = (x) => printRef(x, sites)
+  // positions whose value the generator hoists into a temporary (`$A`): conditions of ?: and dynamic indices
+  const hoisted = (x) => { if (!sites) return R(x); const code = R(x); sites.push(code); return 'HOIST(' + (sites.length - 1) + ')' }
   switch (e.k) {
     case 'id': return '$.' + e.name
     case 'lit': return '(' + e.text + ')'
-    case 'grp': return printRef(e.e)
-    case 'un': return '(' + e.op + ' ' + printRef(e.e) + ')'
-    case 'bin': return '(' + printRef(e.l) + ' ' + e.op + ' ' + printRef(e.r) + ')'
-    case 'cond': return '(' + printRef(e.c) + ' ? ' + printRef(e.t) + ' : ' + printRef(e.f) + ')'
-    case 'mem': return 'GET(' + printRef(e.o) + ', ' + JSON.stringify(e.name) + ')'
-    case 'idx': return 'GET(' + printRef(e.o) + ', ' + printRef(e.i) + ')'
-    case 'call': return 'CALL(' + printRef(e.f) + ', [' + e.args.map(printRef).join(', ') + '])'
-    case 'arr': return '[' + e.items.map((it) => (it.hole ? '' : it.spread ? '...SPREAD(' + printRef(it.spread) + ')' : printRef(it))).join(', ') + (e.items.length && e.items[e.items.length - 1].hole ? ',' : '') + ']'
-    case 'obj': return '({' + e.fields.map((f) => (f.spread ? '...' + printRef(f.spread) : f.short ? f.short + ': $.' + f.short : f.key + ': ' + printRef(f.value))).join(', ') + '})'
+    case 'grp': return R(e.e)
+    case 'un': return '(' + e.op + ' ' + R(e.e) + ')'
+    case 'bin': return '(' + R(e.l) + ' ' + e.op + ' ' + R(e.r) + ')'
+    case 'cond': return '(' + hoisted(e.c) + ' ? ' + R(e.t) + ' : ' + R(e.f) + ')'
+    case 'mem': return 'GET(' + R(e.o) + ', ' + JSON.stringify(e.name) + ')'
+    case 'idx': { const o = R(e.o); return 'GET(' + o + ', ' + hoisted(e.i) + ')' }
+    case 'call': return 'CALL(' + R(e.f) + ', [' + e.args.map(R).join(', ') + '])'
+    case 'arr': return '[' + e.items.map((it) => (it.hole ? '' : it.spread ? '...SPREAD(' + R(it.spread) + ')' : R(it))).join(', ') + (e.items.length && e.items[e.items.length - 1].hole ? ',' : '') + ']'
+    case 'obj': return '({' + e.fields.map((f) => (f.spread ? '...' + R(f.spread) : f.short ? f.short + ': $.' + f.short : f.key + ': ' + R(f.value))).join(', ') + '})'
     default: throw new Error('bad node ' + e.k)
   }
 }
-// SPREAD only records that a non-array value was spread (the known lenient-spread deviation is identified by that)
+// SPREAD only records that a non-array value was spread (the known lenient-spread deviation is identified by that);
+// HOIST records which hoisted positions JavaScript evaluated (the known eager-evaluation deviation is identified by a
+// position JavaScript skipped whose evaluation on its own throws)
 const REF_PRELUDE = 'const SPREAD = (x) => { if (!Array.isArray(x)) FLAGS.nonArraySpread = true; return x }; const GET = (o, k) => (o === null || o === undefined ? undefined : o[k]); const CALL = (f, args) => (typeof f === "function" ? (0, f)(...args) : undefined);'
 
 function compileRef(e) {
+  const sites = []
+  const body = printRef(e, sites)
+  const siteDefs = 'const SITE = [' + sites.map((c) => '() => ' + c).join(', ') + ']; FLAGS.SITE = SITE; FLAGS.evaluated = []; const HOIST = (n) => { FLAGS.evaluated[n] = true; return SITE[n]() };'
   // eslint-disable-next-line no-new-func
-  return new Function('$', 'FLAGS', REF_PRELUDE + ' return ' + printRef(e))
+  return new Function('$', 'FLAGS', REF_PRELUDE + siteDefs + ' return ' + body)
 }
 
 function freeNames(e, out = new Set()) {
